@@ -882,7 +882,7 @@ def c18(report):
                               "the ndarray replay; byte snapshots of every caller object around every call")
     def variants(lp, np_, i):
         extra = dict(bin_name="thr") if lp == "ts" and np_ != "tree" and i % 2 == 0 else {}     # the binarizer reads the caller's arrays
-        return [dict(container=c, **extra) for c in ("ndarray", "list", "pandas", "fortran", "view", "int")]
+        return [dict(container=c, **extra) for c in ("ndarray", "list", "pandas", "fortran", "view", "int", "f32")]
     ops = FULL_OPS | {"warm_start"}
     jobs = cross_jobs(report.tier, report.seed, variants, "exact", ops, caller_check=True, tag="-c18")
     # single-feature data: a pandas Series as contexts (column orientation)
